@@ -732,7 +732,14 @@ def gen_body(r, ctx, inner, dec):
         feats.add("do-while")
     # atomics
     a = r.random()
-    if a < 0.2:
+    if ex_reads and a < 0.15:
+        # an @atomic update of a GLOBAL cell whose index mentions an @exclusive variable: the update is still on
+        # shared data and must stay atomic (seeded change C21-m1 dropped the pragma when the left-hand side
+        # mentions a thread-local variable anywhere, subscripts included)
+        out.append(Stmt("acc[(%s) & 1] += 1" % ex_reads[0], atomic="a", basic=True, uses="x"))
+        feats.add("atomic-basic")
+        feats.add("atomic-exclusive-index")
+    elif a < 0.2:
         # basic @atomic statements (-> `omp atomic`) use acc[0..1], general @atomic regions (-> `omp critical`)
         # use acc[2..3]: `omp atomic` and `omp critical` do not exclude each other (finding F74)
         out.append(Stmt("acc[%d] += %s" % (r.randrange(2), val), atomic="a", basic=True))
